@@ -198,7 +198,7 @@ pub fn run(ctx: &Ctx) -> Rep {
     let xcheck_6 = ctx.pick(1, 16, 1);
     let xcheck_7 = ctx.pick(1, 128, 8);
     let twin_rate_6 = ctx.pick(1, 1, 1);
-    let twin_rate_7 = ctx.pick(1, 8, 1);
+    let twin_rate_7 = ctx.pick_hist(1, 8, 1);
     let rows_rate_6 = ctx.pick(1, 16, 2);
     let rows_rate_7 = ctx.pick(1, 64, 8);
 
